@@ -119,7 +119,7 @@ def pipeline3mr_history(draw):
     names += [f'c{a} AND_REL c{b}' for a, b in rel]
     n = len(candidates_3mr(names))
     steps = draw(st.lists(st.tuples(st.sampled_from(['d', 'p', 'p']), st.integers(1, n + 2)).map(list), min_size=2, max_size=12))
-    return {'mode': 'pipeline3mr', 'cols': names, 'steps': steps}
+    return {'mode': 'pipeline3mr', 'cols': names, 'steps': steps, 'ncpus': draw(st.sampled_from([1, 2, 3, 4, 7, 8]))}
 
 
 def candidates_3mr(cols, label='label'):
@@ -211,7 +211,7 @@ def pipeline_candidates(cols):
     return [x for x in itertools.combinations_with_replacement(cols, 2) if 'label' in x]
 
 
-def check_history(cands, steps, cols=None, h3mr=False):
+def check_history(cands, steps, cols=None, h3mr=False, ncpus=1):
     """Interpret the history against the implementation and the model. Returns (#batches, flags)."""
     stubs.reset_globals()
     model = Counter()
@@ -229,7 +229,8 @@ def check_history(cands, steps, cols=None, h3mr=False):
         if kind == 'd':
             got = cr.prior_combinations_sample(list(cands), args)
         elif h3mr:
-            out = cr.mixed_rank_graph(df, args, stubs.InlinePool(), stubs.PBar()).triplet_scores
+            # the owned pool reports a worker count like the real one (--num_threads): every selected combination is still scored
+            out = cr.mixed_rank_graph(df, args, stubs.InlinePool(ncpus=int(ncpus)), stubs.PBar()).triplet_scores
             if len(out) % 2:
                 raise Violation(f'batch {si + 1}: scoring heuristic returned an odd number of rows ({len(out)})', kind='C07/size')
             got = []
@@ -329,8 +330,14 @@ class RecordingPool(stubs.InlinePool):
 
     def amap(self, f, xs):
         xs = list(xs)
+        if not all(isinstance(x, tuple) and len(x) == 2 for x in xs):
+            raise PoolProtocolChanged()       # tasks are no longer single combinations: this stub cannot stand in for the scorer
         self.submitted.append(xs)
         return stubs._Result([(x[0], x[1], 0.5) for x in xs])
+
+
+class PoolProtocolChanged(Exception):
+    pass
 
 
 def check_prior(case):
@@ -479,12 +486,15 @@ def oracle(case, rec):
         steps = [(k, int(c)) for k, c in case['steps']]
         rec.cls('pipeline-3mr', 'has-relation-columns' if any(' AND_REL ' in c for c in cols) else 'no-relation-columns')
         rec.nt(len(steps) >= 3 and any(c < len(cands) for _, c in steps), key=case)
-        check_history(cands, steps, cols, h3mr=True)
+        check_history(cands, steps, cols, h3mr=True, ncpus=int(case.get('ncpus', 1)))
         return
     if case['mode'] == 'prior':
         rec.cls('prior-heuristic')
         rec.nt(len(case['steps']) >= 3 and len(set(c for _, c in case['steps'])) >= 2, key=case)
-        check_prior(case)
+        try:
+            check_prior(case)
+        except PoolProtocolChanged:
+            rec.cls('excluded:prior-history-pool-protocol-changed')     # the other history modes use the real scoring functions
         return
     if case['mode'] == 'direct':
         cands = ([tuple(c) for c in case['cands']] if 'cands' in case
